@@ -3,5 +3,5 @@
 set -e
 here="$(cd "$(dirname "$0")" && pwd)"
 cd "$here"
-/venv/bin/python harness/extract.py || true
+/venv/bin/python harness/extract.py || true   # also runs harness/py2lean.py (Generated/Stardate, Maths, Sensors)
 cd lean && lake build
